@@ -47,7 +47,10 @@ pub fn parse_csv_row(row: &str) -> Vec<String> {
         let (result, nin, nout) = rdr.read_field(bytes, &mut output);
         let end = match result {
             ReadFieldResult::InputEmpty => true,
-            ReadFieldResult::Field { .. } => false,
+            // A field that ends the record is the last one: it is produced at the end of the
+            // input when the row ends with a comma, and reading on would report a second,
+            // spurious empty field.
+            ReadFieldResult::Field { record_end } => record_end,
             ReadFieldResult::End => true,
             _ => unreachable!(),
         };
